@@ -20,7 +20,8 @@ def insertByTag (p : Nat × String) : Fields → Fields
 def sortByTag (f : Fields) : Fields := f.foldr insertByTag []
 
 def renderWire (cfg : Cfg) (m : OutMsg) : String :=
-  let f := sortByTag (m.f ++ [(49, cfg.sender), (56, cfg.target)])
+  let f := sortByTag (m.f ++ [(49, cfg.sender), (56, cfg.target)]
+                      ++ (match m.last with | some v => [(369, toString v)] | none => []))
   "w 35=" ++ m.kind ++ " 34=" ++ toString m.seq ++ String.join (f.map fun p => " " ++ toString p.1 ++ "=" ++ p.2)
 
 def renderObs (cfg : Cfg) : Obs → String
@@ -71,17 +72,36 @@ def parseCfg? (toks : List String) : Option (Cfg × Int × Int) := do
   let b (k : String) : Option Bool := (kvLookup kv k).bind fun v => if v == "1" then some true else if v == "0" then some false else none
   let n (k : String) : Option Nat := (kvLookup kv k).bind (·.toNat?)
   let i (k : String) : Option Int := (kvLookup kv k).bind (·.toInt?)
+  -- ResetSeqTime: `rst=<seconds of the day>`; absent or `-` = not configured
+  let rst : Option Nat ← match kvLookup kv "rst" with
+    | none => some none
+    | some "-" => some none
+    | some v => (match v.toNat? with
+      | some n => if n < 86400 then some (some n) else none
+      | none => none)
+  -- EnableLastMsgSeqNumProcessed: `lsp=0|1`; absent = off
+  let lsp : Bool ← match kvLookup kv "lsp" with
+    | none => some false
+    | some "1" => some true
+    | some "0" => some false
+    | some _ => none
   let cfg : Cfg := {
     initiator := ← b "init", bs := ← n "bs", chunk := ← n "chunk",
     resetOnLogon := ← b "rol", resetOnLogout := ← b "rolo", resetOnDisconnect := ← b "rod",
     refreshOnLogon := ← b "refresh", persist := ← b "persist", skipLatency := ← b "skiplat",
     hb := ← i "hb", hbOverride := ← b "hbo", applVer := if (← n "bs") == 5 then "9" else "",
-    lookThroughPending := ← b "ltp" }
+    lookThroughPending := ← b "ltp", resetSeqTime := rst, lastSeqProcessed := lsp }
   pure (cfg, ← i "s0", ← i "t0")
 
 def timerOf? : String → Option TimerEv
   | "hb" => some .needHeartbeat | "peer" => some .peerTimeout | "logon" => some .logonTimeout | "logout" => some .logoutTimeout
   | _ => none
+
+/-- the clock of `rtime n`: n seconds after the harness's fixed UTC midnight, 0 ≤ n ≤ 10^9 -/
+def rtimeOf? (w : String) : Option Int :=
+  match w.toNat? with
+  | some n => if n ≤ 1000000000 then some (Int.ofNat n) else none
+  | none => none
 
 def sessStep (s : Sess) (w : List String) : Sess × String :=
   let run (e : Ev) : Sess × String := let (s', obs, status) := step s e; (s', renderResult s' obs status)
@@ -108,6 +128,7 @@ def sessStep (s : Sess) (w : List String) : Sess × String :=
   | ["stime", "in"] => run (.sessionTime true true)
   | ["stime", "out"] => run (.sessionTime false true)
   | ["stime", "new"] => run (.sessionTime true false)
+  | ["rtime", n] => (match rtimeOf? n with | some t => run (.resetTime t) | none => (s, "bad-op"))
   | _ => (s, "bad-op")
 
 def sessFamily : Family := { σ := Sess, init := initSess {} 1 1, step := sessStep }
